@@ -98,7 +98,7 @@ def ext_value_ok(I, st, base, expr, cls, nib_aff, at):
 
 
 def check(env, rep, tier):
-    include(rep, env, tier, "c01", ("C01.4", "C01.6"), "C02.3", "'re-serialising reproduces the input': the encoder emits the RFC option headers and the payload behind its marker")
+    include(rep, env, tier, "c01", ("C01.2", "C01.4", "C01.6"), "C02.3", "'re-serialising reproduces the input': the encoder emits the RFC option headers and the payload behind its marker")
     configs = ["default"] if tier == "quick" else ["default", "nodefault", "udp"]
     rep.configs = configs
     for cfg in configs:
@@ -204,9 +204,14 @@ def check(env, rep, tier):
             if ctx.body["id"] != body["id"] or ctx.depth != 0:
                 return
             scan["loops"] += 1
-            for _, e_ in exits:
+            for tg_, e_ in exits:
+                if I_.err_only(ctx.body, tg_):
+                    continue        # a rejecting exit, not the end of the scan
                 fin = any(str(x).startswith(("phi", "prev")) and e_.entails(Aff.sym(x) - buf.len) for x in list(e_.bounds))
-                e_.ghost["option-scan"] = "finished" if fin else "left-early"
+                marker = any((I_.syminfo.get(x) or ("",))[0] == "elem" and e_.bounds.get(x) == (255, 255) for x in list(e_.bounds))
+                e_.ghost["option-scan"] = "finished" if fin else "marker" if marker else "left-early"
+                if not fin and not marker:
+                    scan["early"] = scan.get("early", 0) + 1
         I.loop_hooks.append(lhook)
         I, res = run(prog, body, args=[buf], st=st, I=I)
         n_acc, blind = 0, 0
@@ -215,6 +220,9 @@ def check(env, rep, tier):
                 n_acc += 1
                 if s.ghost.get("option-scan") is None:
                     blind += 1
+        rep.ob("C02.4", "option-scan-ends-at-end-or-marker", scan.get("early", 0) == 0 and scan["loops"] >= 1,
+               "the option scan can be left on %d path(s) with input remaining that is not a payload marker: trailing bytes are neither "
+               "parsed as an option nor rejected (they are swallowed like a marker or dropped)" % scan.get("early", 0), site)
         rep.ob("C02.4", "accept-after-option-scan", blind == 0 and n_acc > 0 and scan["loops"] >= 1,
                "a datagram is accepted on %d of %d paths that never went through the option scan: whatever follows the token "
                "(options, payload) is dropped from the parsed message, so re-encoding cannot reproduce the input" % (blind, n_acc), site,
